@@ -1,6 +1,7 @@
 import Swat4.Lemmas.GS1Parse
 import Swat4.Lemmas.GS1Collect
 import Swat4.Lemmas.GS1Decimal
+import Swat4.Lemmas.GS1Assoc
 /-! `expandPayload` on the parameter sequence of an encoded status. -/
 namespace Swat4.GS1
 open Swat4 Swat4.GS1Spec
@@ -101,236 +102,138 @@ theorem expandStep_player (st : EState) (k v : Bytes) (i : Nat) (hk : usc ∉ k)
     exact sliceTo_append _ _
   simp only [expandStep, hp, Bool.false_eq_true, if_false, hidx, hle, h1, h2, Res.ok_bind, atoi_decimal i hi, Res.pure_eq]
 
-/-! ## appending at the end of an id-sorted list -/
+/-! ## pairs of a status: one step, the loop -/
 
-theorem insertKV_append_last {α : Type} (P : List (Int × α)) (i : Int) (x : α) (h : ∀ k ∈ keysOf P, k < i) :
-    insertKV i x P = P ++ [(i, x)] := by
-  induction P with
-  | nil => rfl
-  | cons hd t ih =>
-    obtain ⟨k, v⟩ := hd
-    have hk : k < i := h k (by simp [keysOf])
-    have := ih (fun k' hk' => h k' (by simp only [keysOf, List.map_cons, List.mem_cons] at hk' ⊢; exact .inr hk'))
-    simp only [insertKV, List.cons_append]
-    rw [if_neg (by omega), if_neg (by omega), this]
+/-- the parameter `parseParams` yields for a pair -/
+def itemParam (it : Item) : Param := ⟨it.name, it.value⟩
 
-theorem insertKV_replace_last {α : Type} (P : List (Int × α)) (i : Int) (x y : α) (h : ∀ k ∈ keysOf P, k < i) :
-    insertKV i x (P ++ [(i, y)]) = P ++ [(i, x)] := by
-  induction P with
-  | nil => simp [insertKV]
-  | cons hd t ih =>
-    obtain ⟨k, v⟩ := hd
-    have hk : k < i := h k (by simp [keysOf])
-    have := ih (fun k' hk' => h k' (by simp only [keysOf, List.map_cons, List.mem_cons] at hk' ⊢; exact .inr hk'))
-    simp only [insertKV, List.cons_append]
-    rw [if_neg (by omega), if_neg (by omega), this]
-
-theorem lookupKV_none_of_lt {α : Type} (P : List (Int × α)) (i : Int) (h : ∀ k ∈ keysOf P, k < i) :
-    lookupKV i P = none := by
-  induction P with
-  | nil => rfl
-  | cons hd t ih =>
-    obtain ⟨k, v⟩ := hd
-    have hk : k < i := h k (by simp [keysOf])
-    have := ih (fun k' hk' => h k' (by simp only [keysOf, List.map_cons, List.mem_cons] at hk' ⊢; exact .inr hk'))
-    simp only [lookupKV]
-    rw [if_neg (by omega), this]
-
-theorem lookupKV_last {α : Type} (P : List (Int × α)) (i : Int) (y : α) (h : ∀ k ∈ keysOf P, k < i) :
-    lookupKV i (P ++ [(i, y)]) = some y := by
-  induction P with
-  | nil => simp [lookupKV]
-  | cons hd t ih =>
-    obtain ⟨k, v⟩ := hd
-    have hk : k < i := h k (by simp [keysOf])
-    have := ih (fun k' hk' => h k' (by simp only [keysOf, List.map_cons, List.mem_cons] at hk' ⊢; exact .inr hk'))
-    simp only [lookupKV, List.cons_append]
-    rw [if_neg (by omega), this]
-
-/-! ## runs of parameters -/
+/-- what `expandStep` needs of a pair to classify it as intended -/
+def ExpOK : Item → Prop
+  | .field k _ => usc ∉ k
+  | .player id k _ => usc ∉ k ∧ k ≠ kObjBare ∧ id < 9223372036854775808
+  | .objective n _ => n ≠ []
 
 def insField (m : List (Bytes × Bytes)) (kv : Bytes × Bytes) : List (Bytes × Bytes) := insertKV kv.1 (latin1 kv.2) m
 
 theorem mkMap_eq (kvs : List (Bytes × Bytes)) : mkMap kvs = kvs.foldl insField [] := rfl
 
-theorem expandLoop_fields (kvs : List (Bytes × Bytes)) (h : ∀ kv ∈ kvs, usc ∉ kv.1) (o : List (Bytes × Bytes))
-    (P : List (Int × List (Bytes × Bytes))) (f : List (Bytes × Bytes)) :
-    expandLoop (kvs.map fun kv => (⟨kv.1, kv.2⟩ : Param)) ⟨o, P, f⟩ = .ok ⟨o, P, kvs.foldl insField f⟩ := by
-  induction kvs generalizing f with
+/-- the effect of one pair on `playersByID` -/
+def stepP (P : List (Int × List (Bytes × Bytes))) : Item → List (Int × List (Bytes × Bytes))
+  | .player id k v => insertKV (id : Int) (insField ((lookupKV (id : Int) P).getD []) (k, v)) P
+  | _ => P
+
+/-- the effect of one pair on the locals of `expandPayload` -/
+def stepItem (st : EState) : Item → EState
+  | .field k v => ⟨st.objectives, st.playersByID, insField st.fields (k, v)⟩
+  | .player id k v => ⟨st.objectives, stepP st.playersByID (.player id k v), st.fields⟩
+  | .objective n v => ⟨st.objectives ++ [(n, v)], st.playersByID, st.fields⟩
+
+theorem expandStep_item (st : EState) (it : Item) (h : ExpOK it) : expandStep st (itemParam it) = .ok (stepItem st it) := by
+  cases it with
+  | field k v => exact expandStep_field st k v h
+  | player id k v => exact expandStep_player st k v id h.1 h.2.1 h.2.2
+  | objective n v => exact expandStep_obj st n v h
+
+theorem expandLoop_items (w : List Item) (h : ∀ it ∈ w, ExpOK it) (st : EState) :
+    expandLoop (w.map itemParam) st = .ok (w.foldl stepItem st) := by
+  induction w generalizing st with
   | nil => rfl
-  | cons kv t ih =>
-    simp only [List.map_cons, expandLoop, expandStep_field _ _ _ (h kv (by simp)), Res.ok_bind, List.foldl_cons]
-    exact ih (fun kv' hkv' => h kv' (List.mem_cons_of_mem _ hkv')) _
+  | cons it t ih =>
+    simp only [List.map_cons, expandLoop, expandStep_item st it (h it (by simp)), Res.ok_bind, List.foldl_cons]
+    exact ih (fun it' h' => h it' (List.mem_cons_of_mem _ h')) _
 
-theorem expandLoop_objs (kvs : List (Bytes × Bytes)) (h : ∀ kv ∈ kvs, kv.1 ≠ []) (o : List (Bytes × Bytes))
-    (P : List (Int × List (Bytes × Bytes))) (f : List (Bytes × Bytes)) :
-    expandLoop (kvs.map fun kv => (⟨kObj ++ kv.1, kv.2⟩ : Param)) ⟨o, P, f⟩ = .ok ⟨o ++ kvs, P, f⟩ := by
-  induction kvs generalizing o with
-  | nil => simp [expandLoop]
-  | cons kv t ih =>
-    simp only [List.map_cons, expandLoop, expandStep_obj _ _ _ (h kv (by simp)), Res.ok_bind]
-    rw [ih (fun kv' hkv' => h kv' (List.mem_cons_of_mem _ hkv'))]
-    simp
-
-/-- the remaining keys of a player whose entry already exists (it is the last one) -/
-theorem expandLoop_player_rest (kvs : List (Bytes × Bytes)) (i : Nat) (hi : i < 9223372036854775808)
-    (h : ∀ kv ∈ kvs, usc ∉ kv.1 ∧ kv.1 ≠ kObjBare) (o : List (Bytes × Bytes))
-    (P : List (Int × List (Bytes × Bytes))) (hP : ∀ k ∈ keysOf P, k < (i : Int)) (m f : List (Bytes × Bytes)) :
-    expandLoop (kvs.map fun kv => (⟨playerKey kv.1 i, kv.2⟩ : Param)) ⟨o, P ++ [((i : Int), m)], f⟩ =
-      .ok ⟨o, P ++ [((i : Int), kvs.foldl insField m)], f⟩ := by
-  induction kvs generalizing m with
+theorem pairUp_flatItems (w : List Item) : pairUp (flatItems w) = w.map itemParam := by
+  induction w with
   | nil => rfl
-  | cons kv t ih =>
-    have hkv := h kv (by simp)
-    simp only [List.map_cons, expandLoop, expandStep_player _ _ _ _ hkv.1 hkv.2 hi, Res.ok_bind, List.foldl_cons,
-      lookupKV_last P _ _ hP, Option.getD_some, insertKV_replace_last P _ _ _ hP]
-    exact ih (fun kv' hkv' => h kv' (List.mem_cons_of_mem _ hkv')) _
+  | cons it t ih =>
+    simp only [flatItems, List.flatMap_cons, List.cons_append, List.nil_append, pairUp, List.map_cons] at ih ⊢
+    rw [ih]; rfl
 
-/-- all keys of one (non-empty) player: a new entry at the end -/
-theorem expandLoop_player (kvs : List (Bytes × Bytes)) (hne : kvs ≠ []) (i : Nat) (hi : i < 9223372036854775808)
-    (h : ∀ kv ∈ kvs, usc ∉ kv.1 ∧ kv.1 ≠ kObjBare) (o : List (Bytes × Bytes))
-    (P : List (Int × List (Bytes × Bytes))) (hP : ∀ k ∈ keysOf P, k < (i : Int)) (f : List (Bytes × Bytes)) :
-    expandLoop (kvs.map fun kv => (⟨playerKey kv.1 i, kv.2⟩ : Param)) ⟨o, P, f⟩ =
-      .ok ⟨o, P ++ [((i : Int), mkMap kvs)], f⟩ := by
-  cases kvs with
-  | nil => exact absurd rfl hne
-  | cons kv t =>
-    have hkv := h kv (by simp)
-    simp only [List.map_cons, expandLoop, expandStep_player _ _ _ _ hkv.1 hkv.2 hi, Res.ok_bind,
-      lookupKV_none_of_lt P _ hP, Option.getD_none, insertKV_append_last P _ _ hP]
-    rw [expandLoop_player_rest t i hi (fun kv' hkv' => h kv' (List.mem_cons_of_mem _ hkv')) o P hP]
-    rfl
+/-- the three locals after the loop, each in terms of the pairs of its own kind -/
+theorem foldl_stepItem (w : List Item) (st : EState) :
+    w.foldl stepItem st =
+      ⟨st.objectives ++ objectivesOf w, w.foldl stepP st.playersByID, (fieldsOf w).foldl insField st.fields⟩ := by
+  induction w generalizing st with
+  | nil => simp [objectivesOf, fieldsOf]
+  | cons it t ih =>
+    rw [List.foldl_cons, ih]
+    cases it <;> simp [stepItem, stepP, objectivesOf, fieldsOf]
 
-/-- parameters of players `i, i+1, …` -/
-def playersParams : Nat → List (List (Bytes × Bytes)) → List Param
-  | _, [] => []
-  | i, p :: ps => (p.map fun kv => (⟨playerKey kv.1 i, kv.2⟩ : Param)) ++ playersParams (i + 1) ps
+/-! ## `playersByID` after the loop -/
 
-theorem expandLoop_players (ps : List (List (Bytes × Bytes))) (i : Nat) (hi : i + ps.length ≤ 9223372036854775808)
-    (h : ∀ p ∈ ps, p ≠ [] ∧ ∀ kv ∈ p, usc ∉ kv.1 ∧ kv.1 ≠ kObjBare) (o : List (Bytes × Bytes))
-    (P : List (Int × List (Bytes × Bytes))) (hP : ∀ k ∈ keysOf P, k < (i : Int)) (f : List (Bytes × Bytes)) :
-    ∃ P', expandLoop (playersParams i ps) ⟨o, P, f⟩ = .ok ⟨o, P', f⟩ ∧ P'.map (·.2) = P.map (·.2) ++ ps.map mkMap := by
-  induction ps generalizing i P with
-  | nil => exact ⟨P, rfl, by simp⟩
-  | cons p t ih =>
-    have hp := h p (by simp)
-    simp only [List.length_cons] at hi
-    simp only [playersParams, expandLoop_append, expandLoop_player p hp.1 i (by omega) hp.2 o P hP f, Res.ok_bind]
-    have hP' : ∀ k ∈ keysOf (P ++ [((i : Int), mkMap p)]), k < ((i + 1 : Nat) : Int) := by
-      intro k hk
-      simp only [keysOf, List.map_append, List.map_cons, List.map_nil, List.mem_append, List.mem_singleton] at hk
-      rcases hk with hk | rfl
-      · have := hP k (by simpa [keysOf] using hk); omega
-      · omega
-    obtain ⟨P', h1, h2⟩ := ih (i + 1) (by omega) (fun q hq => h q (List.mem_cons_of_mem _ hq)) _ hP'
-    exact ⟨P', h1, by rw [h2]; simp⟩
+/-- the pairs of the player with (integer) index `k`, in wire order -/
+def pairsOfI (k : Int) (w : List Item) : List (Bytes × Bytes) :=
+  w.filterMap fun
+    | .player i kk v => if (i : Int) = k then some (kk, v) else none
+    | _ => none
 
-theorem pairUp_playersFlat_append (ps : List (List (Bytes × Bytes))) (i : Nat) (rest : List Bytes) :
-    pairUp (playersFlat i ps ++ rest) = playersParams i ps ++ pairUp rest := by
-  induction ps generalizing i with
-  | nil => rfl
-  | cons p t ih =>
-    simp only [playersFlat, playerFlat, playersParams, List.append_assoc]
-    rw [pairUp_flatMap2_append p (fun kv => playerKey kv.1 i), ih]
+theorem pairsOfI_nat (id : Nat) (w : List Item) : pairsOfI (id : Int) w = pairsOf id w := by
+  unfold pairsOfI pairsOf
+  congr 1
+  funext it
+  cases it with
+  | player i kk v => simp only [Int.natCast_inj]
+  | _ => rfl
 
-/-! ## the whole parameter sequence of a status -/
+theorem pairsOfI_neg (k : Int) (hk : k < 0) (w : List Item) : pairsOfI k w = [] := by
+  unfold pairsOfI
+  rw [List.filterMap_eq_nil_iff]
+  intro it _
+  cases it with
+  | player i kk v => simp only [ite_eq_right_iff, reduceCtorEq, imp_false]; omega
+  | _ => rfl
 
-/-- `expandPayload`'s loop over the parameters of status `s` followed by framing fields `fr`
-(the dialect's own `final`/`queryid`) -/
-theorem expandLoop_flat (s : Status) (wf : WfStatus s) (hn : s.players.length ≤ 9223372036854775808)
-    (fr : List (Bytes × Bytes)) (hfr : ∀ kv ∈ fr, usc ∉ kv.1) :
-    ∃ P', expandLoop (pairUp (flat s ++ fr.flatMap fun kv => [kv.1, kv.2])) EState.init =
-        .ok ⟨s.objectives, P', mkMap (s.fields ++ fr)⟩ ∧ P'.map (·.2) = s.players.map mkMap := by
-  have e : pairUp (flat s ++ fr.flatMap fun kv => [kv.1, kv.2]) =
-      (s.fields.map fun kv => (⟨kv.1, kv.2⟩ : Param)) ++ (playersParams 0 s.players ++
-        ((s.objectives.map fun kv => (⟨kObj ++ kv.1, kv.2⟩ : Param)) ++ fr.map fun kv => (⟨kv.1, kv.2⟩ : Param))) := by
-    simp only [flat, List.append_assoc]
-    rw [pairUp_flatMap2_append s.fields (fun kv => kv.1), pairUp_playersFlat_append,
-      pairUp_flatMap2_append s.objectives (fun kv => kObj ++ kv.1)]
-    rw [show (fr.flatMap fun kv => [kv.1, kv.2]) = (fr.flatMap fun kv => [kv.1, kv.2]) ++ [] by simp,
-      pairUp_flatMap2_append fr (fun kv => kv.1)]
-    simp [pairUp]
-  rw [e, expandLoop_append]
-  simp only [EState.init]
-  rw [expandLoop_fields s.fields (fun kv hkv => (wf.field_names kv hkv).2.1)]
-  simp only [Res.ok_bind]
-  rw [expandLoop_append]
-  obtain ⟨P', h1, h2⟩ := expandLoop_players s.players 0 (by omega)
-    (fun p hp => ⟨(wf.player_keys p hp).1, fun kv hkv => (wf.player_keys p hp).2 kv hkv⟩) []
-    [] (by simp [keysOf]) (s.fields.foldl insField [])
-  rw [h1]
-  simp only [Res.ok_bind]
-  rw [expandLoop_append, expandLoop_objs s.objectives wf.objective_names]
-  simp only [Res.ok_bind, List.nil_append]
-  rw [expandLoop_fields fr hfr]
-  refine ⟨P', ?_, by simpa using h2⟩
-  simp only [mkMap_eq, List.foldl_append]
+/-- every index maps to the map built from its pairs, in wire order -/
+theorem lookup_foldl_stepP (w : List Item) (P0 : List (Int × List (Bytes × Bytes))) (k : Int) :
+    lookupKV k (w.foldl stepP P0) =
+      if pairsOfI k w = [] then lookupKV k P0
+      else some ((pairsOfI k w).foldl insField ((lookupKV k P0).getD [])) := by
+  induction w generalizing P0 with
+  | nil => simp [pairsOfI]
+  | cons it t ih =>
+    rw [List.foldl_cons, ih]
+    cases it with
+    | field a b => simp [stepP, pairsOfI]
+    | objective a b => simp [stepP, pairsOfI]
+    | player id kk v =>
+      by_cases hk : (id : Int) = k
+      · have e : pairsOfI k (Item.player id kk v :: t) = (kk, v) :: pairsOfI k t := by
+          simp [pairsOfI, hk]
+        rw [e]
+        simp only [stepP, lookupKV_insertKV_g, hk, if_true, Option.getD_some, List.foldl_cons, reduceCtorEq, if_false]
+        split
+        · rename_i h0; rw [h0]; rfl
+        · rfl
+      · have e : pairsOfI k (Item.player id kk v :: t) = pairsOfI k t := by
+          simp [pairsOfI, hk]
+        have hk' : ¬ k = (id : Int) := fun h => hk h.symm
+        rw [e]
+        simp only [stepP, lookupKV_insertKV_g, hk', if_false]
 
-/-! ## backslash-freedom of the encoded field sequence -/
+theorem foldl_stepP_sorted (w : List Item) (P0 : List (Int × List (Bytes × Bytes)))
+    (h : (keysG P0).Pairwise (· < ·)) : (keysG (w.foldl stepP P0)).Pairwise (· < ·) := by
+  induction w generalizing P0 with
+  | nil => exact h
+  | cons it t ih =>
+    rw [List.foldl_cons]
+    apply ih
+    cases it with
+    | player id kk v => exact insertKV_sorted_g strictTotal_int _ _ _ h
+    | _ => exact h
 
-theorem mem_playersFlat {g : Bytes} {i : Nat} {ps : List (List (Bytes × Bytes))} (h : g ∈ playersFlat i ps) :
-    ∃ p ∈ ps, ∃ kv ∈ p, (∃ j, g = playerKey kv.1 j) ∨ g = kv.2 := by
-  induction ps generalizing i with
-  | nil => cases h
-  | cons p t ih =>
-    simp only [playersFlat, List.mem_append] at h
-    rcases h with h | h
-    · simp only [playerFlat, List.mem_flatMap, List.mem_cons, List.not_mem_nil, or_false] at h
-      obtain ⟨kv, hkv, h⟩ := h
-      refine ⟨p, by simp, kv, hkv, ?_⟩
-      rcases h with h | h
-      · exact .inl ⟨i, h⟩
-      · exact .inr h
-    · obtain ⟨q, hq, kv, hkv, h⟩ := ih h
-      exact ⟨q, List.mem_cons_of_mem _ hq, kv, hkv, h⟩
+/-! ## `expandPayload` over a rendered pair sequence -/
 
 theorem playerKey_noBsl {k : Bytes} (j : Nat) (h : bsl ∉ k) : bsl ∉ playerKey k j := by
   simp only [playerKey, List.mem_append, List.mem_cons, not_or]
   exact ⟨h, by decide, decimal_noBsl j⟩
 
-/-- every element of the flat sequence is a wire name or a value of the status -/
-theorem mem_flat {g : Bytes} {s : Status} (h : g ∈ flat s) :
-    (∃ kv ∈ s.fields, g = kv.1 ∨ g = kv.2) ∨
-    (∃ p ∈ s.players, ∃ kv ∈ p, (∃ j, g = playerKey kv.1 j) ∨ g = kv.2) ∨
-    (∃ kv ∈ s.objectives, g = kObj ++ kv.1 ∨ g = kv.2) := by
-  simp only [flat, List.mem_append, List.mem_flatMap, List.mem_cons, List.not_mem_nil, or_false] at h
-  rcases h with (⟨kv, hkv, h⟩ | h) | ⟨kv, hkv, h⟩
-  · exact .inl ⟨kv, hkv, h⟩
-  · exact .inr (.inl (mem_playersFlat h))
-  · exact .inr (.inr ⟨kv, hkv, h⟩)
-
-theorem flat_noBsl (s : Status) (wf : WfStatus s) : ∀ g ∈ flat s, bsl ∉ g := by
-  intro g hg
-  rcases mem_flat hg with ⟨kv, hkv, h⟩ | ⟨p, hp, kv, hkv, h⟩ | ⟨kv, hkv, h⟩
-  · have := wf.fields_bsl kv hkv
-    rcases h with rfl | rfl
-    · exact this.1
-    · exact this.2
-  · have := wf.players_bsl p hp kv hkv
-    rcases h with ⟨j, rfl⟩ | rfl
-    · exact playerKey_noBsl j this.1
-    · exact this.2
-  · have := wf.objectives_bsl kv hkv
-    rcases h with rfl | rfl
-    · simp only [List.mem_append, not_or]; exact ⟨by decide, this.1⟩
-    · exact this.2
-
-/-- `expandPayload` over the rendered field sequence of a status plus framing fields -/
-theorem expandPayload_flat (s : Status) (wf : WfStatus s) (hn : s.players.length ≤ 9223372036854775808)
-    (fr : List (Bytes × Bytes)) (hfr : ∀ kv ∈ fr, usc ∉ kv.1 ∧ bsl ∉ kv.1 ∧ bsl ∉ kv.2) (v : Ver) :
-    expandPayload (body (flat s ++ fr.flatMap fun kv => [kv.1, kv.2])) v =
-      .ok ⟨mkMap (s.fields ++ fr), s.players.map mkMap, s.objectives, v⟩ := by
+/-- `expandPayload` over the rendered pair sequence `w` (backslash-free, every pair classifiable) -/
+theorem expandPayload_items (w : List Item) (hok : ∀ it ∈ w, ExpOK it) (hbsl : ∀ g ∈ flatItems w, bsl ∉ g) (v : Ver) :
+    expandPayload (body (flatItems w)) v =
+      .ok ⟨mkMap (fieldsOf w), (w.foldl stepP []).map (·.2), objectivesOf w, v⟩ := by
   unfold expandPayload
-  rw [parseParams_body]
-  · obtain ⟨P', h1, h2⟩ := expandLoop_flat s wf hn fr (fun kv hkv => (hfr kv hkv).1)
-    simp only [Res.ok_bind, h1, Res.pure_eq, h2]
-  · intro g hg
-    rcases List.mem_append.mp hg with hg | hg
-    · exact flat_noBsl s wf g hg
-    · simp only [List.mem_flatMap, List.mem_cons, List.not_mem_nil, or_false] at hg
-      obtain ⟨kv, hkv, h⟩ := hg
-      rcases h with rfl | rfl
-      · exact (hfr kv hkv).2.1
-      · exact (hfr kv hkv).2.2
+  rw [parseParams_body _ hbsl]
+  simp only [Res.ok_bind, pairUp_flatItems, expandLoop_items w hok, foldl_stepItem, EState.init, List.nil_append,
+    Res.pure_eq, mkMap_eq]
 
 end Swat4.GS1
